@@ -566,9 +566,15 @@ func genGeneralX(r *hx.Rng, force *xform) string {
 		if !ok {
 			continue
 		}
-		k := 120
-		pts := samplePoints(r, a, b, crossings, k)
-		margin := sampMargin
+		k := 100
+		// the sampling margin: 1/64, and for a third of the float64 calls 1/1024 (a positional error of the result
+		// between the two margins is visible to the smaller one)
+		mexp := 6
+		if ft == "f64" && r.Chance(1, 3) {
+			mexp = 10
+		}
+		pts := samplePointsIn(r, a, b, crossings, k, span, math.Ldexp(1, -mexp))
+		margin := "1/" + strconv.Itoa(1<<uint(mexp))
 		var x *xform
 		if force != nil {
 			x = force
@@ -589,7 +595,7 @@ func genGeneralX(r *hx.Rng, force *xform) string {
 			for i := range pts {
 				pts[i] = fpt{math.Ldexp(pts[i].x+x.tx, x.k), math.Ldexp(pts[i].y+x.ty, x.k)}
 			}
-			margin = x.marginTok()
+			margin = x.marginTok(mexp)
 		}
 		var sb strings.Builder
 		sb.WriteString(op + " " + ft + " P " + margin + " " + strconv.Itoa(k))
